@@ -44,6 +44,7 @@ type CallSpec struct {
 	Match    MatchKind
 	StartAt  int64 // ticks
 	CancelAt int64 // ticks, -1 never
+	Deadline bool  // the context ends by deadline (context.DeadlineExceeded) instead of cancellation
 	After    int   // start only after call #After has returned (-1: none)
 	Pkt      int   // request variant
 	Dest     int   // 0 default server address, 1 explicit unicast
@@ -77,7 +78,7 @@ func (s *ClientScenario) String() string {
 	}
 	fmt.Fprintf(&b, "%s %s T=%d n=%d cap=%d close=%d calls=[", s.Name, fam, s.T, s.Tries, s.BufCap, s.CloseAt)
 	for _, c := range s.Calls {
-		fmt.Fprintf(&b, "{id%d m%d start%d cancel%d after%d}", c.ID, c.Match, c.StartAt, c.CancelAt, c.After)
+		fmt.Fprintf(&b, "{id%d m%d start%d cancel%d dl%v after%d}", c.ID, c.Match, c.StartAt, c.CancelAt, c.Deadline, c.After)
 	}
 	b.WriteString("] dgs=[")
 	for _, d := range s.Dgs {
@@ -308,7 +309,11 @@ func (s *ClientScenario) body(out **clientRun) func() {
 					cx, _ := vs.WithCancel(context.Background())
 					vs.At(at*Tick, "cancel", func() {
 						h.add(Event{Kind: EvCancel, Call: i})
-						cx.CancelByClock()
+						if c.Deadline {
+							cx.ExpireByClock()
+						} else {
+							cx.CancelByClock()
+						}
 					})
 					ctx = cx
 				}
